@@ -12,7 +12,9 @@ import (
 var nearMiss = []string{"", "my key", "paranoids.regular-cert", "Paranoids.Regular-cert", "paranoids.regula", "xparanoids.regular", "private-key", "paranoids.regular", "PARANOIDS.REGULAR-CERT", "regular-cert"}
 
 func genRun(g *hx.Gen, fam int) string {
-	ln := g.Pick([]string{"alice", "bob", "a.b", "é", "alice", "alice"})
+	// login names: ordinary ones, prefixes / extensions of another user's name, and names that a
+	// shell pattern or a case-insensitive comparison would take for another user's
+	ln := g.Pick([]string{"alice", "bob", "a.b", "é", "alice", "alice", "alice", "alic", "alice2", "al*", "?lice", "[a-z]lice", "*", "Alice", "ALICE", "alice ", "bo?"})
 	f := map[string]string{
 		"pol": "NONS", "hk": "0", "ln": hx.HexS(ln), "tid": hx.HexS(g.Pick([]string{"ab12cd34ef", "", `q"uote`, "日本"})), "ip": hx.HexS(g.Pick([]string{"10.0.0.1", "::1", "<ip>"})),
 		"ru": hx.HexS(g.Str()), "rh": hx.HexS(g.Str()), "algo": "0", "val": "43200", "kids": "0:" + hx.HexS("id-default") + "+1:" + hx.HexS("id-rsa") + "+ecdsa:" + hx.HexS("id-ec"),
@@ -119,6 +121,10 @@ func exhaustiveGS(depth int, wide bool) [][]string {
 		if wide {
 			alphabet = append(alphabet, runWith("closeat", strconv.Itoa(k), "ca", "certs:2:2"))
 		}
+	}
+	// a login name without registered key next to other users' keys
+	for _, n := range []string{"alic", "al*", "?lice", "[a-z]lice", "*", "Alice"} {
+		alphabet = append(alphabet, runWith("ln", hx.HexS(n), "pub", "abs", "bare", "abs"))
 	}
 	if wide {
 		alphabet = append(alphabet, runWith("ca", "realdead"), runWith("ca", "realdown"), runWith("ln", hx.HexS("bob")), runWith("hs", "gkeyn:1"), runWith("hs", "gerr:handlerConf"),
